@@ -20,7 +20,7 @@ History data (JSON-able):
   f   = "none" | "pre" | "post"                        user hook of that assignment raising
 """
 from __future__ import annotations
-import itertools, random, sys
+import gc, itertools, json, random, sys
 import core
 from core import hx
 from runner import Case
@@ -300,22 +300,33 @@ def _disarm(prev):
 
 
 _MEMO: dict = {}
-_MEMO_MAX = 400000
+_MEMO_MAX = 700000
 
 
-def run_real(d, assertions=None, with_anc=True):
+def run_real(d, assertions=None, with_anc=True, memo=True):
     """execute the history on real DAGNode objects.
     returns [(outcome, snapshot, ancestors|None)] with one entry for the initial state (outcome 'init')
     followed by one per op; snapshot = [(parent ids, child ids)] per node in allocation order."""
     asrt = bool(d["asrt"]) if assertions is None else bool(assertions)
-    key = (line_of(d), repr(d["ops"]), asrt, with_anc)
+    key = "|".join((line_of(d), repr(d["ops"]), str(asrt), str(with_anc)))
     hit = _MEMO.get(key)
     if hit is not None:
-        return hit
+        return json.loads(hit)
+    out = _run_real_once(d, asrt, with_anc, HANG_SECONDS)
+    if out[-1][0] == "hang":
+        # a stall of the whole process (garbage collection, a busy machine) looks the same: once more, longer
+        out = _run_real_once(d, asrt, with_anc, 3 * HANG_SECONDS)
+    blob = json.dumps(out)      # strings are invisible to the cyclic GC: hundreds of thousands of traces stay cheap
+    if memo and len(_MEMO) < _MEMO_MAX:
+        _MEMO[key] = blob
+    return json.loads(blob)     # always the same shape (lists), memoised or not
+
+
+def _run_real_once(d, asrt, with_anc, limit):
     import bigtree.node.dagnode as dn
     old = dn.ASSERTIONS
     dn.ASSERTIONS = asrt
-    timer = _arm(HANG_SECONDS)
+    timer = _arm(limit)
     try:
         w = World(d["names"])
         out = [("init", w.snapshot(), None)]
@@ -338,8 +349,6 @@ def run_real(d, assertions=None, with_anc=True):
     finally:
         _disarm(timer)
         dn.ASSERTIONS = old
-    if len(_MEMO) < _MEMO_MAX:
-        _MEMO[key] = out
     return out
 
 
@@ -634,12 +643,12 @@ def oracle_c02(d, assertions=None):
                 msgs.append(f"{where} but the store changed: before {_fmt_snap(before)} after {_fmt_snap(after)}")
             continue
         new = len(before)
-        plain = [(list(p), list(c)) for p, c in before] + [([], [])]
+        plain = [[list(p), list(c)] for p, c in before] + [[[], []]]
         if after == plain:
             continue
         ps = op[2][1] if op[2][0] == "L" else None
         if ps is not None and all(isinstance(m, int) and m < new for m in ps) and len(set(ps)) == len(ps):
-            half = [(list(p), list(c) + ([new] if i in ps else [])) for i, (p, c) in enumerate(before)] + [(list(ps), [])]
+            half = [[list(p), list(c) + ([new] if i in ps else [])] for i, (p, c) in enumerate(before)] + [[list(ps), []]]
             if after == half:
                 continue
         msgs.append(f"{where} but the store is neither the old one nor the one after its parents assignment: "
@@ -704,7 +713,7 @@ def _bfs_states(n, names):
         for nm in sorted(set(names)):
             moves.append(["X", v, nm])
     def state(h):
-        tr = run_real(mk_data(n, h, names), with_anc=False)
+        tr = run_real(mk_data(n, h, names), with_anc=False, memo=False)
         return repr(tr[-1][1])
     cap = {1: 50, 2: 100, 3: 600, 4: 12000}.get(n, 12000)   # real counts: 1, 3, 49, 7885; a broken setter may diverge
     seen = {state([]): []}
@@ -1023,6 +1032,8 @@ def gen(rng, tier):
     sub = random.Random(rng.random())
     off = gen_histories(sub, tier, 0.25, asrt=0, exhaustive=False)
     cases += [mk_case(d, t + ("asrt=0",)) for d, t in off[: (400 if tier == "quick" else 3000)]]
+    gc.collect()
+    gc.freeze()     # several 100k case objects: keep them out of later full collections (multi-second pauses otherwise)
     return cases
 
 
@@ -1093,18 +1104,25 @@ RULE = ("one case = one whole history on DAGNode objects (user subclass whose fo
         "attempts through paths of length >= 3 via either setter + successor enumeration (every list-exact store reachable "
         "on <= 3 nodes x every op x every argument tuple incl. non-nodes, self, repeats, tuples, non-iterables x fault) + "
         "random histories on 4-8 nodes (1-40 ops, up to 4 parents, ~25% faults, ~15% malformed; a hostile stream with 70% "
-        "malformed) + the same with the checks off; non-trivial = the history asks for >= 2 edges/deletions on >= 2 nodes")
+        "malformed) + the same with the checks off + argument re-use: the SAME caller-side list object passed to two or more "
+        "setter / constructor calls of one history and overwritten in place by the caller between calls (corpus, 40% of the "
+        "random histories, and from every 3-node store: two calls sharing one list object then one more insertion); "
+        "non-trivial = the history asks for >= 2 edges/deletions on >= 2 nodes")
 EXHAUSTIVE = {
     "quick": "all list-exact stores reachable on 1..3 DAG nodes (1 + 3 + 49 states, found by breadth-first search on the real "
              "code) x every operation x every receiver x every member list of length <= 3 over the nodes and a non-node "
              "(all three fault points for lists of length <= 2; length-3 lists over the nodes with none/post) + tuples, "
              "non-iterables, >>, <<, both deleters, constructor with every pair of lists of length <= 2 (<= 2 nodes)",
-    "thorough": "as quick with all three fault points everywhere and all nine fault pairs for the constructor; plus every "
+    "thorough": "(shared list objects: every 3-node store x every (receiver pair, list, setter pair, follow-up insertion)) "
+                "as quick with all three fault points everywhere and all nine fault pairs for the constructor; plus every "
                 "list-exact store reachable on 4 nodes (7885 states) x 12 random operations each (states exhaustive, operations sampled)",
 }
 MODELLED = [
     "DAGNode objects are ids in allocation order; identity = equality of ids; ids >= n stand for non-node objects",
     "user hooks may raise at the four documented points and do nothing else",
+    "the model has values, not references: a list object the caller passes twice is two equal lists to the model, and a "
+    "caller overwriting its own list afterwards is a no-op on the store; any aliasing of the argument on the real side "
+    "therefore shows as a disagreement",
     "exceptions are modelled by kind (ok / rej); list.remove on an absent element and attribute access on a non-node abort "
     "the roll-back loop exactly where Python does",
     "the constructor is modelled as allocation followed by the two setters; a failing children assignment leaves the "
